@@ -10,7 +10,14 @@ def strip(n, tier, timeout=600):
              models=['m_throw.c', 'm_env.c'], libmodels=['m_string.c', 'm_stl.c'], unwind=n + 4, cdefs=['VLL_STR_NOGROW'], tier=tier, timeout=timeout,
              bounds='every valid named-argument template of exactly %d bytes over { } a b : . (every field named, <= 3 fields, spec without braces)' % n,
              what='real BackendWorker::_process_named_args_format_message: positional template = the template with exactly the names removed (text, escaped braces and every spec kept); key list = (name, spec) per placeholder in order')
-QUERIES = [strip(5, 'dev'), strip(7, 'dev')] + [det(n, 'quick') for n in (2, 3, 4, 5, 6, 7)] + [det(8, 'thorough', 1700), det(9, 'thorough', 1700)]
+def jsonnl(n, tier):
+    return Q('json_newlines_len%d' % n, 'C19_json.cpp', 'h_json_newlines', defines=['TLEN=%d' % n], byteloops=True,
+             hooks=[r'^_ZN5quill2v96detail8JsonSinkI5TBaseE21generate_json_message=vh_gen_json', r'^_ZN5quill2v910StreamSink9write_logE=vh_stream_write', r'^_ZN5TBaseC2Ev=vh_tbase_ctor'],
+             forbid=[r'^_ZN5quill2v910StreamSinkD[012]Ev$', r'basic_memory_bufferIcLm500ESaIcEE4grow'],
+             models=['m_throw.c', 'm_env.c'], libmodels=['m_string.c', 'm_stl.c'], unwind=n + 4, cdefs=['VLL_STR_NOGROW'], tier=tier, timeout=600,
+             bounds='every message template of 0..%d bytes over {a, space, newline}' % n,
+             what='real detail::JsonSink::write_log: the template handed to the JSON line equals the original with every newline replaced by one space (same length, nothing else touched), the line is generated once and handed down once, closed by "}" and a newline')
+QUERIES = [jsonnl(4, 'dev'), strip(5, 'dev'), strip(7, 'dev')] + [det(n, 'quick') for n in (2, 3, 4, 5, 6, 7)] + [det(8, 'thorough', 1700), det(9, 'thorough', 1700)]
 BOUNDS = 'templates <= 8 (quick) / 10 (thorough) bytes over a 6-symbol alphabet'
 OUTSIDE = 'libfmt rendering of the values, JSON well-formedness for arbitrary values, the stripper and the split loop (need a libfmt model; not built)'
 ASSUMPTIONS = ['templates are valid libfmt templates (documented precondition of a log statement); spec text contains no nested braces']
